@@ -49,6 +49,8 @@ pub struct Logical {
     /// next to an Authorization header, date/token headers next to the query carrier, later duplicates of
     /// the query carrier's own parameters, an HTTP-date `Date` header next to `X-Amz-Date`
     pub decoys: bool,
+    /// header carrier: leave the date header (X-Amz-Date or Date) out of the signed-header list
+    pub unsigned_date: bool,
 }
 
 /// How the wire request spells the logical one.
@@ -323,6 +325,7 @@ pub fn random_logical(rng: &mut Rng) -> Logical {
         dup_date: None,
         scope_date_override: None,
         decoys: rng.chance(1, 4),
+        unsigned_date: false,
     }
 }
 
@@ -382,13 +385,17 @@ pub fn sign_and_spell(l: &Logical, rng: &mut Rng, sp: &Spelling, now: (i64, u32)
         Carrier::Header => {
             if l.use_date_header {
                 headers.push(("Date".to_string(), time_text.as_bytes().to_vec()));
-                signed.push("date".to_string());
+                if !l.unsigned_date {
+                    signed.push("date".to_string());
+                }
             } else {
                 headers.push(("X-Amz-Date".to_string(), time_text.as_bytes().to_vec()));
                 if let Some(d2) = &l.dup_date {
                     headers.push(("X-Amz-Date".to_string(), d2.clone()));
                 }
-                signed.push("x-amz-date".to_string());
+                if !l.unsigned_date {
+                    signed.push("x-amz-date".to_string());
+                }
             }
             if let Some(t) = &l.token {
                 headers.push(("X-Amz-Security-Token".to_string(), t.as_bytes().to_vec()));
